@@ -58,12 +58,25 @@ type FuncContract struct {
 	Lets        []LetDef
 	Relies      []*Clause
 	Ghosts      []GhostUpdate
-	ParamNames  []string // interface contracts: parameter names of the method
-	Implements  []string // interface contracts (keys) this function must refine
-	InlineCalls []string // callees (by name pattern) whose body is executed in place in this function
+	ParamNames  []string      // interface contracts: parameter names of the method
+	BV          bool          // verify in bit-vector mode
+	Consumes    []ConsumeSpec // function-typed parameters / expressions completed exactly once
+	Implements  []string      // interface contracts (keys) this function must refine
+	InlineCalls []string      // callees (by name pattern) whose body is executed in place in this function
 	File        string
 	Line        int
 	Used        bool
+}
+
+// ConsumeSpec: "consumes cb [unless E]" - every return satisfies invoked(cb) + (E ? 1 : 0) == 1,
+// and passing a function value for this parameter hands it on (counts as one invocation for
+// the caller).
+type ConsumeSpec struct {
+	Name   string // parameter (or free variable) name, or an expression such as r.cb
+	Expr   *SExpr
+	Unless *SExpr
+	Text   string
+	Props  []string
 }
 
 type GhostUpdate struct {
@@ -73,27 +86,48 @@ type GhostUpdate struct {
 	Text string
 }
 
+// ImmutableSpec: a field written only by the listed constructors; its value survives call-outs.
+type ImmutableSpec struct {
+	Field        string // <pkg-relative type>.<field>
+	Constructors []string
+	Props        []string
+	File         string
+	Line         int
+}
+
+// GuardedSpec: a field that may only be accessed with the lock field of the same object held
+// (or through sync/atomic), except inside the listed constructors.
+type GuardedSpec struct {
+	Pkg          string
+	Field        string
+	Lock         string
+	Constructors []string
+	Props        []string
+}
+
 type PredDef struct {
-	Name   string
-	Params []string
+	Name      string
+	Params    []string
 	ParamText string
-	Body   *SExpr
-	Pkg    string
+	Body      *SExpr
+	Pkg       string
 }
 
 type Contracts struct {
-	Funcs   map[string]*FuncContract // by full key
-	Preds   map[string]*PredDef      // by pkgpath + "." + name, and by bare name
-	Expect  map[string]int           // property -> minimum obligations
+	Funcs     map[string]*FuncContract // by full key
+	Preds     map[string]*PredDef      // by pkgpath + "." + name, and by bare name
+	Expect    map[string]int           // property -> minimum obligations
 	GhostMaps map[string]bool
-	Files   []string
-	Sources map[string]string // file -> which source (repo|mirror)
+	Immutable map[string]*ImmutableSpec // field family prefix (T.f) -> spec
+	Guarded   map[string]*GuardedSpec   // field family prefix (T.f) -> spec
+	Files     []string
+	Sources   map[string]string // file -> which source (repo|mirror)
 }
 
 var clauseKeywords = map[string]bool{
 	"pred": true, "func": true, "prop": true, "requires": true, "ensures": true, "modifies": true,
 	"loop": true, "pure": true, "inline": true, "trusted": true, "assert": true, "assume": true, "after": true,
-	"implements": true, "let": true, "rely": true, "expect-obligations": true, "iface": true, "nobody": true, "ghostmap": true, "ghost": true,
+	"immutable": true, "guarded": true, "arith": true, "consumes": true, "implements": true, "let": true, "rely": true, "expect-obligations": true, "iface": true, "nobody": true, "ghostmap": true, "ghost": true,
 }
 
 var tagRe = regexp.MustCompile(`^\[([^\]]*)\]\s*`)
@@ -126,7 +160,7 @@ var contractPkgs = map[string]string{
 }
 
 func LoadContracts(repo, mirror string) (*Contracts, error) {
-	c := &Contracts{Funcs: map[string]*FuncContract{}, Preds: map[string]*PredDef{}, Expect: map[string]int{}, Sources: map[string]string{}, GhostMaps: map[string]bool{}}
+	c := &Contracts{Funcs: map[string]*FuncContract{}, Preds: map[string]*PredDef{}, Expect: map[string]int{}, Sources: map[string]string{}, GhostMaps: map[string]bool{}, Immutable: map[string]*ImmutableSpec{}, Guarded: map[string]*GuardedSpec{}}
 	var suffixes []string
 	for s := range contractPkgs {
 		suffixes = append(suffixes, s)
@@ -233,6 +267,38 @@ func (c *Contracts) parseFile(path, pkgPath string) error {
 				c.Expect[f[0]] = n
 			}
 			continue
+		case "immutable":
+			// immutable [Cxx] T.f T.g ... constructors NewX, NewY
+			props, _, rest := splitTags(r.text)
+			parts := strings.SplitN(rest, "constructors", 2)
+			var ctors []string
+			if len(parts) == 2 {
+				for _, w := range strings.FieldsFunc(parts[1], func(r rune) bool { return r == ',' || r == ' ' }) {
+					ctors = append(ctors, w)
+				}
+			}
+			for _, w := range strings.Fields(parts[0]) {
+				c.Immutable[pkgRel(pkgPath)+w] = &ImmutableSpec{Field: pkgRel(pkgPath) + w, Constructors: ctors, Props: props, File: path, Line: r.line}
+			}
+			cur = nil
+			continue
+		case "guarded":
+			// guarded [Cxx] T.f by lck constructors NewX
+			props, _, rest := splitTags(r.text)
+			parts := strings.SplitN(rest, "constructors", 2)
+			var ctors []string
+			if len(parts) == 2 {
+				for _, w := range strings.FieldsFunc(parts[1], func(r rune) bool { return r == ',' || r == ' ' }) {
+					ctors = append(ctors, w)
+				}
+			}
+			f := strings.Fields(parts[0])
+			if len(f) != 3 || f[1] != "by" {
+				return fmt.Errorf("%s:%d: malformed guarded clause (want: guarded T.f by lock [constructors ...])", path, r.line)
+			}
+			c.Guarded[pkgRel(pkgPath)+f[0]] = &GuardedSpec{Pkg: pkgPath, Field: pkgRel(pkgPath) + f[0], Lock: f[2], Constructors: ctors, Props: props}
+			cur = nil
+			continue
 		case "ghostmap":
 			for _, w := range strings.Fields(r.text) {
 				c.GhostMaps[w] = true
@@ -300,6 +366,26 @@ func (c *Contracts) parseFile(path, pkgPath string) error {
 			for _, w := range strings.FieldsFunc(r.text, func(r rune) bool { return r == ',' || r == ' ' }) {
 				cur.Props = append(cur.Props, w)
 			}
+		case "arith":
+			cur.BV = strings.TrimSpace(r.text) == "bv"
+		case "consumes":
+			props, _, rest := splitTags(r.text)
+			name := rest
+			var unless *SExpr
+			if i := strings.Index(rest, " unless "); i >= 0 {
+				name = strings.TrimSpace(rest[:i])
+				u, err := ParseSpec(rest[i+len(" unless "):])
+				if err != nil {
+					return fmt.Errorf("%s:%d: %v", path, r.line, err)
+				}
+				unless = u
+			}
+			name = strings.TrimSpace(name)
+			ex, err := ParseSpec(name)
+			if err != nil {
+				return fmt.Errorf("%s:%d: %v", path, r.line, err)
+			}
+			cur.Consumes = append(cur.Consumes, ConsumeSpec{Name: name, Expr: ex, Unless: unless, Text: rest, Props: props})
 		case "implements":
 			k := strings.TrimSpace(r.text)
 			if strings.HasPrefix(k, "iface:") && strings.Count(k, ".") == 1 {
@@ -412,10 +498,17 @@ func (c *Contracts) parseFile(path, pkgPath string) error {
 			} else if strings.HasPrefix(txt, "before ") {
 				txt = strings.TrimSpace(strings.TrimPrefix(txt, "before"))
 			}
-			if !strings.HasPrefix(txt, "call ") {
-				return fmt.Errorf("%s:%d: malformed site clause (need '[after] call <pattern>: expr')", path, r.line)
+			isDef := false
+			if strings.HasPrefix(txt, "def ") {
+				isDef = true
+				when = "def"
+				txt = strings.TrimSpace(strings.TrimPrefix(txt, "def"))
+			} else if !strings.HasPrefix(txt, "call ") {
+				return fmt.Errorf("%s:%d: malformed site clause (need '[after] call <pattern>: expr' or 'def <var>: expr')", path, r.line)
 			}
-			txt = strings.TrimSpace(strings.TrimPrefix(txt, "call"))
+			if !isDef {
+				txt = strings.TrimSpace(strings.TrimPrefix(txt, "call"))
+			}
 			colon := strings.Index(txt, ": ")
 			if colon < 0 {
 				return fmt.Errorf("%s:%d: malformed site clause (need 'call <pattern>: expr')", path, r.line)
@@ -474,4 +567,23 @@ func (c *Contracts) lookup(key string) *FuncContract {
 		return c.Funcs[g]
 	}
 	return nil
+}
+
+// pkgRel: prefix that typeName() gives to types of the package (path relative to the module).
+func pkgRel(pkgPath string) string {
+	r := strings.TrimPrefix(strings.TrimPrefix(pkgPath, modPath), "/")
+	if r == "" {
+		return ""
+	}
+	return r + "."
+}
+
+// immutableKey reports whether a Mem family belongs to a field declared immutable.
+func (c *Contracts) immutableKey(k string) bool {
+	base := k
+	if i := strings.Index(base, "#"); i >= 0 {
+		base = base[:i]
+	}
+	_, ok := c.Immutable[base]
+	return ok
 }
